@@ -563,3 +563,9 @@ M("c20-sort-pointers-default", "C20", "cola/libavoid/router.cpp",
 M("c20-neutral-id-order", "C20", "cola/libavoid/router.cpp",
   "        if (lhs->id() != rhs->id())\n        {\n            return lhs->id() < rhs->id();\n        }\n        // IDs are unique within a router, so this is only a last resort.\n        return lhs < rhs;",
   "        const unsigned int lid = lhs->id(), rid = rhs->id();\n        if (lid != rid)\n        {\n            return lid < rid;\n        }\n        return lhs < rhs;", expect="silent")
+
+# ---------------------------------------------------------------- C16 intersection point
+M("c16-intersection-y-uses-ax", "C16", "cola/libavoid/geometry.cpp",
+  "    num = d*Ay;\n    // Intersection Y:\n    *y = a1.y + (num) / f;\n\n    return DO_INTERSECT;\n}\n\n\n// Line Segment Intersection\n// Original code by Franklin Antonio \n//\nint rayIntersectPoint",
+  "    num = d*Ax;\n    // Intersection Y:\n    *y = a1.y + (num) / f;\n\n    return DO_INTERSECT;\n}\n\n\n// Line Segment Intersection\n// Original code by Franklin Antonio \n//\nint rayIntersectPoint",
+  mention=["INTERSECTION-POINT", "segmentIntersectPoint"])
